@@ -87,6 +87,11 @@ TIE / coverage: generated graphs (numeric: Relu/Neg/Identity/Add/Mul/Clip with o
   equal the by-object result of the same cut. Corpus 04 is the hand-written instance. Caught with a concrete input
   by the generator alone (corpus case removed) and with it.
 
+  Input-and-initializer values (round 3, seeded change C18-r3m3: frontier test `not is_initializer()` replaced by
+  `is_graph_input()`): on 45 % of the graphs one initializer of the main graph is also a graph input (overridable
+  default), read directly by region nodes and inside bodies like any other value; random cuts leave it unlisted
+  70 % of the time. Corpus 05 is the hand-written instance. Caught with a concrete input by the generator alone.
+
 ORACLE readings (weaker where ambiguous): domain = well-formed sources (topologically sorted, every value
   defined once in an enclosing scope, unique non-empty names, view nodes in source order, boundary
   references denoting top-level values known to the source); "raises" = any exception; initializers of
